@@ -18,6 +18,7 @@ from liquid.token import TOKEN_COLON
 from liquid.token import TOKEN_TAG
 from liquid.token import Token
 from liquid.undefined import is_undefined
+from liquid.limits import to_str
 
 if TYPE_CHECKING:
     from liquid.context import RenderContext
@@ -54,7 +55,7 @@ class CycleNode(Node):
         """Render the node to the output buffer."""
         if self.group:
             _group = self.group.evaluate(context)
-            group_name = "__UNDEFINED" if is_undefined(_group) else str(_group)
+            group_name = "__UNDEFINED" if is_undefined(_group) else to_str(_group)
         else:
             group_name = ""
 
@@ -63,7 +64,7 @@ class CycleNode(Node):
         if self.group_by_args:
             key: object = (group_name, tuple(args))
         else:
-            key = group_name if group_name else str(args)
+            key = group_name if group_name else to_str(args)
 
         index = context.cycle(key, len(args))
 
@@ -80,7 +81,7 @@ class CycleNode(Node):
         """Render the node to the output buffer."""
         if self.group:
             _group = await self.group.evaluate_async(context)
-            group_name = "__UNDEFINED" if is_undefined(_group) else str(_group)
+            group_name = "__UNDEFINED" if is_undefined(_group) else to_str(_group)
         else:
             group_name = ""
 
@@ -89,7 +90,7 @@ class CycleNode(Node):
         if self.group_by_args:
             key: object = (group_name, tuple(args))
         else:
-            key = group_name if group_name else str(args)
+            key = group_name if group_name else to_str(args)
 
         index = context.cycle(key, len(args))
 
